@@ -40,14 +40,26 @@ def _work(idx):
            "traces": [], "checked_pins": 0, "checked_inds": 0, "errors": [], "default": None,
            "replayed": 0, "replay_mismatch": [], "buf_bad": [], "checked_bufs": 0, "outside_window": 0}
     try:
-        b, s = A.initialized_solver(p, **opts.get("solver_kw", {}))
+        b, s = A.initialized_solver(p, build_kw=opts.get("build_kw"), **opts.get("solver_kw", {}))
+        smt_assertions = None
+        if opts.get("via_smt2"):
+            # C16: the comparison is made on the SMT-LIB export, parsed back with z3
+            import os, tempfile
+            fd, path = tempfile.mkstemp(suffix=".smt2")
+            os.close(fd)
+            try:
+                with B.silence():
+                    s.export_to_smt2(path)
+                smt_assertions = z3.parse_smt2_string(open(path).read())
+            finally:
+                os.unlink(path)
     except Exception as ex:  # the library refused a well-formed problem
         out["errors"].append({"stage": "build", "exc": f"{type(ex).__name__}: {ex}",
                               "tb": traceback.format_exc(limit=6)})
         return out
     try:
         if opts.get("soundness", True):
-            w, inc = A.soundness(p, b, s, V, max_witnesses=opts.get("max_witnesses", 6))
+            w, inc = A.soundness(p, b, s, V, max_witnesses=opts.get("max_witnesses", 6), assertions=smt_assertions)
             out["inconclusive"] += inc
             for v in w:
                 rec = {"v": v, "trace": None, "reproduced": None}
@@ -81,7 +93,7 @@ def _work(idx):
                     rec["error"] = f"{type(ex).__name__}: {ex}"
                 out["witnesses"].append(rec)
         if opts.get("completeness", True):
-            lost, inc, chk = A.completeness(p, b, s, V)
+            lost, inc, chk = A.completeness(p, b, s, V, assertions=smt_assertions)
             out["inconclusive"] += inc
             out["checked_pins"] = chk
             out["lost"] = lost[:opts.get("max_lost", 500)]
